@@ -326,6 +326,28 @@ void reset_load_object_limits() {
   num_objects_this_thread = 0;
 }
 
+/* load_object() and clone_object() have to enter a new object in the object table before
+ * the master is asked about it (valid_object(), creator_file()). That is LPC code: it can
+ * raise an error, and it can find the evaluation budget or the stack used up. The error must
+ * not leave the half-made object behind, which has no uid yet. While the master is asked,
+ * the object and this handler are on the value stack; when an error unwinds the stack,
+ * pop_stack() has stepped down to the object by the time it runs the handler. */
+static void unfinished_object_error_handler (void) {
+  if (sp->type == T_OBJECT && !(sp->u.ob->flags & O_DESTRUCTED))
+    destruct_object (sp->u.ob);
+}
+
+static void push_unfinished_object (object_t * ob) {
+  push_object (ob);
+  (++sp)->type = T_ERROR_HANDLER;
+  sp->u.error_handler = unfinished_object_error_handler;
+}
+
+static void pop_unfinished_object (void) {
+  sp--;				/* the handler: not run */
+  pop_stack ();			/* the object, or 0 if it was destructed */
+}
+
 /**
  * @brief Load an object definition from file. If the object wants to inherit
  * from an object that is not loaded, discard all, load the inherited object,
@@ -360,7 +382,7 @@ void reset_load_object_limits() {
  */
 object_t* load_object (const char *mudlib_filename, const char *pre_text) {
 
-  int f;
+  int f, has_uid;
   program_t *prog;
   object_t *ob, *save_command_giver = command_giver;
   svalue_t *mret;
@@ -372,6 +394,8 @@ object_t* load_object (const char *mudlib_filename, const char *pre_text) {
 
   if (!strip_name (mudlib_filename, name, sizeof (name)))
     error ("*Filenames with consecutive /'s in them aren't allowed (%s).", mudlib_filename);
+
+  STACK_CHECK (2);		/* room for push_unfinished_object(), see there */
 
   if (get_machine_state() >= MS_MUDLIB_LIMBO)
     {
@@ -536,6 +560,9 @@ object_t* load_object (const char *mudlib_filename, const char *pre_text) {
   opt_trace (TT_COMPILE|2, "adding to otable: \"%s\"", real_name);
   enter_object_hash (ob);	/* add name to fast object lookup table */
 
+  /* the object is destructed if an error takes us away before it has got its uid */
+  push_unfinished_object (ob);
+
   if (get_machine_state() >= MS_MUDLIB_LIMBO)
     {
       opt_trace (TT_COMPILE|3, "calling master apply: valid_object() for: \"%s\"", name);
@@ -548,7 +575,10 @@ object_t* load_object (const char *mudlib_filename, const char *pre_text) {
         }
     }
 
-  if (init_object (ob))
+  has_uid = init_object (ob);
+  pop_unfinished_object ();
+
+  if (has_uid)
     {
       opt_trace (TT_COMPILE|3, "calling object create(): \"%s\"", name);
       call_create (ob, 0);
@@ -666,6 +696,7 @@ object_t *clone_object (const char *str1, int num_arg) {
   /* We do not want the heart beat to be running for unused copied objects */
   if (ob->flags & O_HEART_BEAT)
     (void) set_heart_beat (ob, 0);
+  STACK_CHECK (2);		/* room for push_unfinished_object() */
   new_ob = get_empty_object (ob->prog->num_variables_total);
   new_ob->name = make_new_name (ob->name);
   opt_trace (TT_MEMORY|3, "clone object name: \"/%s\"", new_ob->name);
@@ -675,12 +706,17 @@ object_t *clone_object (const char *str1, int num_arg) {
   reference_prog (ob->prog, "clone_object");
   DEBUG_CHECK (!current_object, "clone_object() from no current_object !\n");
 
-  init_object (new_ob);
-
   new_ob->next_all = obj_list;
   obj_list = new_ob;
   opt_info (1, "cloning object /%s", obj_list->name);
   enter_object_hash (new_ob);	/* Add name to fast object lookup table */
+
+  /* An error in master::creator_file() used to leak the clone, which was in no list yet.
+   * Now it is destructed, as in load_object(). */
+  push_unfinished_object (new_ob);
+  init_object (new_ob);
+  pop_unfinished_object ();
+
   call_create (new_ob, num_arg);
   command_giver = save_command_giver;
   /* Never know what can happen ! :-( */
